@@ -1,4 +1,670 @@
 package main
 
-// further fact groups are added here (leveldb write options, critical sections, lock order)
-func extractAll(repo string) string { return "" }
+import (
+	"fmt"
+	"go/ast"
+	"go/parser"
+	"go/token"
+	"os"
+	"path/filepath"
+	"sort"
+	"strings"
+)
+
+// extractAll emits the structural facts the concurrent / crash theorems take as hypotheses:
+//   - every goleveldb Write call in leveldb/ and the Sync flag of the WriteOptions reaching it (C10)
+//   - the critical-section shape of the persister read and flush paths (C11)
+//   - "the whole method body is one critical section" for the components whose sequential theorems are lifted to
+//     every schedule (C14)
+//   - the lock-order graph of txcache / immunitycache / lrucache / timecache / leveldb (C14: acyclic ⇒ no lock-cycle deadlock)
+func extractAll(repo string) string {
+	var sb strings.Builder
+	sb.WriteString(leveldbWrites(repo))
+	sb.WriteString(persisterSections(repo))
+	sb.WriteString(singleSections(repo))
+	sb.WriteString(lockOrder(repo))
+	return sb.String()
+}
+
+type pkgFuncs struct {
+	fset  *token.FileSet
+	funcs map[string]*ast.FuncDecl // "Recv.Name" or "Name"
+	files map[string]string        // func key → file
+}
+
+func parsePkg(dir string) *pkgFuncs {
+	p := &pkgFuncs{fset: token.NewFileSet(), funcs: map[string]*ast.FuncDecl{}, files: map[string]string{}}
+	entries, _ := os.ReadDir(dir)
+	for _, e := range entries {
+		n := e.Name()
+		if !strings.HasSuffix(n, ".go") || strings.HasSuffix(n, "_test.go") || strings.HasPrefix(n, "verif_") {
+			continue
+		}
+		f, err := parser.ParseFile(p.fset, filepath.Join(dir, n), nil, 0)
+		if err != nil {
+			continue
+		}
+		for _, d := range f.Decls {
+			fd, ok := d.(*ast.FuncDecl)
+			if !ok || fd.Body == nil {
+				continue
+			}
+			key := fd.Name.Name
+			if fd.Recv != nil && len(fd.Recv.List) > 0 {
+				key = recvName(fd.Recv.List[0].Type) + "." + key
+			}
+			p.funcs[key] = fd
+			p.files[key] = n
+		}
+	}
+	return p
+}
+
+func recvName(e ast.Expr) string {
+	switch x := e.(type) {
+	case *ast.StarExpr:
+		return recvName(x.X)
+	case *ast.Ident:
+		return x.Name
+	}
+	return "?"
+}
+
+// selector path of an expression like s.mutBatch.Lock → ["s","mutBatch","Lock"]
+func selPath(e ast.Expr) []string {
+	switch x := e.(type) {
+	case *ast.SelectorExpr:
+		return append(selPath(x.X), x.Sel.Name)
+	case *ast.Ident:
+		return []string{x.Name}
+	case *ast.CallExpr:
+		return selPath(x.Fun)
+	}
+	return nil
+}
+
+func callPath(s ast.Stmt) []string {
+	switch x := s.(type) {
+	case *ast.ExprStmt:
+		if c, ok := x.X.(*ast.CallExpr); ok {
+			return selPath(c.Fun)
+		}
+	case *ast.DeferStmt:
+		return append([]string{"defer"}, selPath(x.Call.Fun)...)
+	}
+	return nil
+}
+
+func containsCall(n ast.Node, suffix ...string) bool {
+	found := false
+	ast.Inspect(n, func(x ast.Node) bool {
+		if c, ok := x.(*ast.CallExpr); ok {
+			p := selPath(c.Fun)
+			if len(p) >= len(suffix) {
+				ok := true
+				for i := range suffix {
+					if p[len(p)-len(suffix)+i] != suffix[i] {
+						ok = false
+					}
+				}
+				if ok {
+					found = true
+				}
+			}
+		}
+		return !found
+	})
+	return found
+}
+
+func leanBool(b bool) string {
+	if b {
+		return "true"
+	}
+	return "false"
+}
+
+// ---- C10: goleveldb writes and their Sync flag
+
+func leveldbWrites(repo string) string {
+	p := parsePkg(filepath.Join(repo, "leveldb"))
+	type w struct {
+		fn   string
+		sync bool
+		lit  bool
+	}
+	var ws []w
+	keys := make([]string, 0, len(p.funcs))
+	for k := range p.funcs {
+		keys = append(keys, k)
+	}
+	sort.Strings(keys)
+	for _, k := range keys {
+		fd := p.funcs[k]
+		// a goleveldb write: a call X.Write(batch, opts) with two arguments
+		nWrites := 0
+		ast.Inspect(fd.Body, func(x ast.Node) bool {
+			if c, ok := x.(*ast.CallExpr); ok {
+				if s, ok := c.Fun.(*ast.SelectorExpr); ok && s.Sel.Name == "Write" && len(c.Args) == 2 {
+					nWrites++
+				}
+			}
+			return true
+		})
+		if nWrites == 0 {
+			continue
+		}
+		sync, lit := false, false
+		ast.Inspect(fd.Body, func(x ast.Node) bool {
+			if cl, ok := x.(*ast.CompositeLit); ok {
+				if s, ok := cl.Type.(*ast.SelectorExpr); ok && s.Sel.Name == "WriteOptions" {
+					lit = true
+					for _, el := range cl.Elts {
+						if kv, ok := el.(*ast.KeyValueExpr); ok {
+							if id, ok := kv.Key.(*ast.Ident); ok && id.Name == "Sync" {
+								if v, ok := kv.Value.(*ast.Ident); ok && v.Name == "true" {
+									sync = true
+								}
+							}
+						}
+					}
+				}
+			}
+			return true
+		})
+		for i := 0; i < nWrites; i++ {
+			ws = append(ws, w{k, sync, lit})
+		}
+	}
+	var sb strings.Builder
+	sb.WriteString("/-- every goleveldb `Write(batch, opts)` call of package leveldb: (function, Sync flag of the WriteOptions literal in that function) -/\n")
+	sb.WriteString("def leveldbWrites : List (String × Bool) := [")
+	for i, x := range ws {
+		if i > 0 {
+			sb.WriteString(", ")
+		}
+		fmt.Fprintf(&sb, "(%q, %s)", x.fn, leanBool(x.sync && x.lit))
+	}
+	sb.WriteString("]\n\n")
+	return sb.String()
+}
+
+// ---- C11: critical-section shape of the persister read and flush paths
+
+// topIndex returns the index of the first top-level statement satisfying pred (or -1)
+func topIndex(body *ast.BlockStmt, from int, pred func(ast.Stmt) bool) int {
+	for i := from; i < len(body.List); i++ {
+		if pred(body.List[i]) {
+			return i
+		}
+	}
+	return -1
+}
+
+func isCall(s ast.Stmt, path ...string) bool {
+	p := callPath(s)
+	if len(p) != len(path) {
+		return false
+	}
+	for i := range p {
+		if p[i] != path[i] {
+			return false
+		}
+	}
+	return true
+}
+
+// batchReadsAtomic: RLock(); if IsRemoved {…}; data := batch.Get(); RUnlock() — in this order at top level,
+// with no top-level RUnlock between the two batch lookups
+func batchReadsAtomic(fd *ast.FuncDecl) bool {
+	if fd == nil {
+		return false
+	}
+	b := fd.Body
+	iLock := topIndex(b, 0, func(s ast.Stmt) bool { return isCall(s, "s", "mutBatch", "RLock") || isCall(s, "s", "mutBatch", "Lock") })
+	if iLock < 0 {
+		return false
+	}
+	iRem := topIndex(b, iLock+1, func(s ast.Stmt) bool {
+		ifs, ok := s.(*ast.IfStmt)
+		return ok && containsCall(ifs.Cond, "batch", "IsRemoved")
+	})
+	if iRem < 0 {
+		return false
+	}
+	iGet := topIndex(b, iRem+1, func(s ast.Stmt) bool {
+		as, ok := s.(*ast.AssignStmt)
+		return ok && containsCall(as, "batch", "Get")
+	})
+	if iGet < 0 {
+		return false
+	}
+	iUn := topIndex(b, iLock+1, func(s ast.Stmt) bool { return isCall(s, "s", "mutBatch", "RUnlock") || isCall(s, "s", "mutBatch", "Unlock") })
+	deferred := topIndex(b, iLock+1, func(s ast.Stmt) bool {
+		return isCall(s, "defer", "s", "mutBatch", "RUnlock") || isCall(s, "defer", "s", "mutBatch", "Unlock")
+	})
+	if deferred >= 0 && deferred < iRem {
+		return true
+	}
+	return iUn > iGet
+}
+
+// flushHoldsLock: the batch mutex is taken before the batch is swapped/written and released only after the write returned
+func serialFlushHoldsLock(fd *ast.FuncDecl) bool {
+	if fd == nil {
+		return false
+	}
+	b := fd.Body
+	iLock := topIndex(b, 0, func(s ast.Stmt) bool { return isCall(s, "s", "mutBatch", "Lock") })
+	if iLock < 0 {
+		return false
+	}
+	iSend := topIndex(b, iLock+1, func(s ast.Stmt) bool { return containsCall(s, "s", "tryWriteInDbAccessChan") })
+	iRecv := topIndex(b, iLock+1, func(s ast.Stmt) bool {
+		found := false
+		ast.Inspect(s, func(x ast.Node) bool {
+			if u, ok := x.(*ast.UnaryExpr); ok && u.Op == token.ARROW {
+				found = true
+			}
+			return !found
+		})
+		return found
+	})
+	if iSend < 0 || iRecv < 0 {
+		return false
+	}
+	deferred := topIndex(b, iLock+1, func(s ast.Stmt) bool { return isCall(s, "defer", "s", "mutBatch", "Unlock") })
+	if deferred >= 0 && deferred < iSend {
+		// no explicit top-level Unlock before the write
+		iUn := topIndex(b, iLock+1, func(s ast.Stmt) bool { return isCall(s, "s", "mutBatch", "Unlock") })
+		return iUn < 0 || iUn > iRecv
+	}
+	iUn := topIndex(b, iLock+1, func(s ast.Stmt) bool { return isCall(s, "s", "mutBatch", "Unlock") })
+	return iUn > iRecv
+}
+
+func dbFlushHoldsLock(fd *ast.FuncDecl) bool {
+	if fd == nil {
+		return false
+	}
+	b := fd.Body
+	iLock := topIndex(b, 0, func(s ast.Stmt) bool { return isCall(s, "s", "mutBatch", "Lock") })
+	if iLock < 0 {
+		return false
+	}
+	deferred := topIndex(b, iLock+1, func(s ast.Stmt) bool { return isCall(s, "defer", "s", "mutBatch", "Unlock") })
+	iPut := topIndex(b, iLock+1, func(s ast.Stmt) bool { return containsCall(s, "s", "putBatch") })
+	iReset := topIndex(b, iLock+1, func(s ast.Stmt) bool { return containsCall(s, "batch", "Reset") })
+	return deferred >= 0 && iPut > deferred && iReset > iPut
+}
+
+func persisterSections(repo string) string {
+	p := parsePkg(filepath.Join(repo, "leveldb"))
+	var sb strings.Builder
+	facts := []struct {
+		name string
+		doc  string
+		val  bool
+	}{
+		{"dbGetBatchReadsAtomic", "DB.Get reads IsRemoved and batch.Get inside ONE mutBatch critical section", batchReadsAtomic(p.funcs["DB.Get"])},
+		{"dbHasBatchReadsAtomic", "DB.Has reads IsRemoved and batch.Get inside ONE mutBatch critical section", batchReadsAtomic(p.funcs["DB.Has"])},
+		{"serialGetBatchReadsAtomic", "SerialDB.Get reads IsRemoved and batch.Get inside ONE mutBatch critical section", batchReadsAtomic(p.funcs["SerialDB.Get"])},
+		{"serialHasBatchReadsAtomic", "SerialDB.Has reads IsRemoved and batch.Get inside ONE mutBatch critical section", batchReadsAtomic(p.funcs["SerialDB.Has"])},
+		{"serialFlushHoldsLock", "SerialDB.putBatch holds mutBatch from the batch swap until the process loop has answered the write", serialFlushHoldsLock(p.funcs["SerialDB.putBatch"])},
+		{"dbFlushHoldsLock", "DB.updateBatchWithIncrement holds mutBatch across putBatch and batch.Reset", dbFlushHoldsLock(p.funcs["DB.updateBatchWithIncrement"])},
+	}
+	for _, f := range facts {
+		fmt.Fprintf(&sb, "/-- %s -/\ndef %s : Bool := %s\n", f.doc, f.name, leanBool(f.val))
+	}
+	sb.WriteString("\n")
+	return sb.String()
+}
+
+// ---- C14: methods whose whole body is one critical section
+
+// wholeBodyLocked: the first statement takes a lock (possibly after trivial guards that return) and a matching defer unlock follows,
+// or the body is Lock(); …; Unlock() with the Unlock as the last statement before the return
+func wholeBodyLocked(fd *ast.FuncDecl) bool {
+	if fd == nil {
+		return false
+	}
+	b := fd.Body.List
+	for i := 0; i < len(b); i++ {
+		p := callPath(b[i])
+		if len(p) >= 2 && (p[len(p)-1] == "Lock" || p[len(p)-1] == "RLock") {
+			// matching defer right after, or an explicit unlock as the last non-return statement
+			if i+1 < len(b) {
+				q := callPath(b[i+1])
+				if len(q) >= 3 && q[0] == "defer" && strings.HasSuffix(q[len(q)-1], "nlock") {
+					return true
+				}
+			}
+			for j := len(b) - 1; j > i; j-- {
+				if _, ok := b[j].(*ast.ReturnStmt); ok {
+					continue
+				}
+				q := callPath(b[j])
+				return len(q) >= 2 && strings.HasSuffix(q[len(q)-1], "nlock")
+			}
+			return false
+		}
+		// statements allowed before the lock: guards that only return, simple assignments without calls into shared state
+		switch s := b[i].(type) {
+		case *ast.IfStmt:
+			onlyReturns := true
+			for _, x := range s.Body.List {
+				if _, ok := x.(*ast.ReturnStmt); !ok {
+					onlyReturns = false
+				}
+			}
+			if !onlyReturns {
+				return false
+			}
+		case *ast.AssignStmt, *ast.DeclStmt:
+		default:
+			return false
+		}
+	}
+	return false
+}
+
+func singleSections(repo string) string {
+	type target struct{ dir, fn string }
+	targets := []target{
+		{"immunitycache", "immunityChunk.AddItem"}, {"immunitycache", "immunityChunk.RemoveItem"}, {"immunitycache", "immunityChunk.ImmunizeKeys"},
+		{"immunitycache", "immunityChunk.GetItem"}, {"immunitycache", "immunityChunk.Count"}, {"immunitycache", "immunityChunk.NumBytes"},
+		{"txcache", "txListForSender.AddTx"}, {"txcache", "txListForSender.removeTransactionsWithLowerOrEqualNonceReturnHashes"},
+		{"txcache", "txListForSender.removeTransactionsWithHigherOrEqualNonce"}, {"txcache", "txListForSender.getTxs"}, {"txcache", "txListForSender.getTxsReversed"},
+		{"txcache", "TxCache.RemoveTxByHash"},
+		{"lrucache/capacity", "capacityLRU.AddSized"}, {"lrucache/capacity", "capacityLRU.AddSizedIfMissing"}, {"lrucache/capacity", "capacityLRU.AddSizedAndReturnEvicted"},
+		{"lrucache/capacity", "capacityLRU.Get"}, {"lrucache/capacity", "capacityLRU.Remove"}, {"lrucache/capacity", "capacityLRU.Keys"},
+		{"timecache", "timeCacheCore.upsert"}, {"timecache", "timeCacheCore.put"}, {"timecache", "timeCacheCore.hasOrAdd"}, {"timecache", "timeCacheCore.sweep"}, {"timecache", "timeCacheCore.has"},
+		{"txcache/maps", "ConcurrentMap.Set"}, {"txcache/maps", "ConcurrentMap.SetIfAbsent"}, {"txcache/maps", "ConcurrentMap.Remove"},
+	}
+	cache := map[string]*pkgFuncs{}
+	var sb strings.Builder
+	sb.WriteString("/-- methods whose whole body is ONE critical section (lock taken first, released last / by defer): any concurrent\n    history of these components is a sequential one -/\n")
+	sb.WriteString("def singleCriticalSection : List (String × Bool) := [")
+	for i, t := range targets {
+		p, ok := cache[t.dir]
+		if !ok {
+			p = parsePkg(filepath.Join(repo, t.dir))
+			cache[t.dir] = p
+		}
+		v := false
+		if t.dir == "txcache/maps" {
+			v = chunkLocked(p.funcs[t.fn])
+		} else {
+			v = wholeBodyLocked(p.funcs[t.fn])
+		}
+		if i > 0 {
+			sb.WriteString(", ")
+		}
+		fmt.Fprintf(&sb, "(%q, %s)", t.dir+":"+t.fn, leanBool(v))
+	}
+	sb.WriteString("]\n\n")
+	return sb.String()
+}
+
+// chunkLocked: `chunk := m.getChunk(key); chunk.mutex.Lock(); …; chunk.mutex.Unlock()` (Unlock last before return, or deferred)
+func chunkLocked(fd *ast.FuncDecl) bool {
+	if fd == nil {
+		return false
+	}
+	b := fd.Body.List
+	if len(b) < 3 {
+		return false
+	}
+	if _, ok := b[0].(*ast.AssignStmt); !ok {
+		return false
+	}
+	p := callPath(b[1])
+	if len(p) < 2 || p[len(p)-1] != "Lock" {
+		return false
+	}
+	q := callPath(b[2])
+	if len(q) >= 3 && q[0] == "defer" && q[len(q)-1] == "Unlock" {
+		return true
+	}
+	for j := len(b) - 1; j > 1; j-- {
+		if _, ok := b[j].(*ast.ReturnStmt); ok {
+			continue
+		}
+		q := callPath(b[j])
+		return len(q) >= 2 && q[len(q)-1] == "Unlock"
+	}
+	return false
+}
+
+// ---- C14: lock order
+
+// lockOrder walks every function of the listed packages, tracking the locks held lexically (Lock … Unlock / defer Unlock) and
+// emits an edge A → B whenever B is acquired — directly, or inside a same-package method called by name — while A is held.
+// Locks are named Type.field (field of the receiver) so that distinct instances of one type collapse (conservative).
+func lockOrder(repo string) string {
+	dirs := []string{"txcache", "immunitycache", "lrucache", "lrucache/capacity", "timecache", "leveldb", "fifocache", "storageUnit", "storageCacherAdapter"}
+	edges := map[[2]string]bool{}
+	for _, d := range dirs {
+		p := parsePkg(filepath.Join(repo, d))
+		// locks acquired directly by each function
+		direct := map[string][]string{}
+		for k, fd := range p.funcs {
+			recv := ""
+			if i := strings.IndexByte(k, '.'); i > 0 {
+				recv = k[:i]
+			}
+			ast.Inspect(fd.Body, func(x ast.Node) bool {
+				if c, ok := x.(*ast.CallExpr); ok {
+					pp := selPath(c.Fun)
+					if len(pp) >= 2 && (pp[len(pp)-1] == "Lock" || pp[len(pp)-1] == "RLock") {
+						direct[k] = append(direct[k], lockName(d, recv, pp))
+					}
+				}
+				return true
+			})
+		}
+		// transitive: locks acquired by a function or anything it calls in the same package (by method name)
+		byName := map[string][]string{}
+		for k := range p.funcs {
+			n := k
+			if i := strings.IndexByte(k, '.'); i > 0 {
+				n = k[i+1:]
+			}
+			byName[n] = append(byName[n], k)
+		}
+		// call resolution without type information: recv.m() → the receiver type's own method; otherwise a unique
+		// method name in the package; otherwise the candidate whose receiver type name contains the variable name
+		// (listForSender.AddTx → txListForSender.AddTx); otherwise unresolved (ignored)
+		resolve := func(caller string, cp []string) []string {
+			if len(cp) == 0 {
+				return nil
+			}
+			name := cp[len(cp)-1]
+			cands := byName[name]
+			if len(cands) == 0 {
+				return nil
+			}
+			callerRecv := ""
+			if i := strings.IndexByte(caller, '.'); i > 0 {
+				callerRecv = caller[:i]
+			}
+			if len(cp) == 2 {
+				for _, c := range cands {
+					if c == callerRecv+"."+name {
+						return []string{c}
+					}
+				}
+			}
+			if len(cands) == 1 {
+				return cands
+			}
+			if len(cp) >= 2 {
+				v := strings.ToLower(cp[len(cp)-2])
+				for _, c := range cands {
+					if i := strings.IndexByte(c, '.'); i > 0 && len(v) > 2 && strings.Contains(strings.ToLower(c[:i]), v) {
+						return []string{c}
+					}
+				}
+			}
+			return nil
+		}
+		var acquired func(k string, seen map[string]bool) []string
+		acquired = func(k string, seen map[string]bool) []string {
+			if seen[k] {
+				return nil
+			}
+			seen[k] = true
+			out := append([]string{}, direct[k]...)
+			ast.Inspect(p.funcs[k].Body, func(x ast.Node) bool {
+				if c, ok := x.(*ast.CallExpr); ok {
+					pp := selPath(c.Fun)
+					for _, callee := range resolve(k, pp) {
+						out = append(out, acquired(callee, seen)...)
+					}
+				}
+				return true
+			})
+			return out
+		}
+		for k, fd := range p.funcs {
+			recv := ""
+			if i := strings.IndexByte(k, '.'); i > 0 {
+				recv = k[:i]
+			}
+			var held []string
+			deferred := map[string]bool{}
+			var walk func(stmts []ast.Stmt)
+			walk = func(stmts []ast.Stmt) {
+				for _, s := range stmts {
+					pp := callPath(s)
+					if len(pp) >= 2 && pp[0] != "defer" && (pp[len(pp)-1] == "Lock" || pp[len(pp)-1] == "RLock") {
+						name := lockName(d, recv, pp)
+						for _, h := range held {
+							if h != name {
+								edges[[2]string{h, name}] = true
+							}
+						}
+						held = append(held, name)
+						continue
+					}
+					if len(pp) >= 2 && pp[0] != "defer" && (pp[len(pp)-1] == "Unlock" || pp[len(pp)-1] == "RUnlock") {
+						name := lockName(d, recv, pp)
+						for i := len(held) - 1; i >= 0; i-- {
+							if held[i] == name && !deferred[name] {
+								held = append(held[:i], held[i+1:]...)
+								break
+							}
+						}
+						continue
+					}
+					if len(pp) >= 3 && pp[0] == "defer" && strings.HasSuffix(pp[len(pp)-1], "nlock") {
+						deferred[lockName(d, recv, pp[1:])] = true
+						continue
+					}
+					// calls made while holding locks
+					if len(held) > 0 {
+						ast.Inspect(s, func(x ast.Node) bool {
+							if c, ok := x.(*ast.CallExpr); ok {
+								cp := selPath(c.Fun)
+								for _, callee := range resolve(k, cp) {
+									if callee == k {
+										continue
+									}
+									for _, b := range acquired(callee, map[string]bool{}) {
+										for _, h := range held {
+											if h != b {
+												edges[[2]string{h, b}] = true
+											}
+										}
+									}
+								}
+							}
+							return true
+						})
+					}
+					// nested blocks keep the held set
+					switch x := s.(type) {
+					case *ast.IfStmt:
+						walk(x.Body.List)
+						if e, ok := x.Else.(*ast.BlockStmt); ok {
+							walk(e.List)
+						}
+					case *ast.ForStmt:
+						walk(x.Body.List)
+					case *ast.RangeStmt:
+						walk(x.Body.List)
+					case *ast.BlockStmt:
+						walk(x.List)
+					}
+				}
+			}
+			walk(fd.Body.List)
+		}
+	}
+	var es [][2]string
+	for e := range edges {
+		es = append(es, e)
+	}
+	sort.Slice(es, func(i, j int) bool {
+		if es[i][0] != es[j][0] {
+			return es[i][0] < es[j][0]
+		}
+		return es[i][1] < es[j][1]
+	})
+	var sb strings.Builder
+	sb.WriteString("/-- lock-order edges \"held A while acquiring B\" (locks named package:Type.field) -/\n")
+	sb.WriteString("def lockOrder : List (String × String) := [")
+	for i, e := range es {
+		if i > 0 {
+			sb.WriteString(", ")
+		}
+		fmt.Fprintf(&sb, "(%q, %q)", e[0], e[1])
+	}
+	sb.WriteString("]\n")
+	// the same graph over indices into the sorted list of lock names (cheap for the kernel)
+	idx := map[string]int{}
+	var names []string
+	for _, e := range es {
+		for _, n := range e {
+			if _, ok := idx[n]; !ok {
+				idx[n] = 0
+				names = append(names, n)
+			}
+		}
+	}
+	sort.Strings(names)
+	for i, n := range names {
+		idx[n] = i
+	}
+	sb.WriteString("def lockNames : List String := [")
+	for i, n := range names {
+		if i > 0 {
+			sb.WriteString(", ")
+		}
+		fmt.Fprintf(&sb, "%q", n)
+	}
+	sb.WriteString("]\ndef lockOrderIdx : List (Nat × Nat) := [")
+	for i, e := range es {
+		if i > 0 {
+			sb.WriteString(", ")
+		}
+		fmt.Fprintf(&sb, "(%d, %d)", idx[e[0]], idx[e[1]])
+	}
+	sb.WriteString("]\n")
+	return sb.String()
+}
+
+func lockName(dir, recv string, path []string) string {
+	// path like [s mutBatch Lock] / [chunk mutex Lock] / [listForSender mutex RLock] / [tcc Lock]
+	mid := path[:len(path)-1]
+	field := mid[len(mid)-1]
+	owner := recv
+	if len(mid) >= 2 && mid[0] != "s" && mid[0] != "c" && mid[0] != "cache" && mid[0] != "tc" && mid[0] != "u" && mid[0] != "b" && mid[0] != "m" && mid[0] != "ic" && mid[0] != "tcc" {
+		owner = mid[0] // a local variable of another type (chunk, listForSender, …)
+	}
+	if len(mid) == 1 {
+		field = "(embedded)"
+		owner = mid[0]
+	}
+	return dir + ":" + owner + "." + field
+}
